@@ -11,6 +11,7 @@
  R4 the weight-dictionary length check raises before the weights are used;
  R5 P = sum(w * [margin > 0]) under the hard threshold, weights ordered by sorted contest key;
  R6 client: a model is required, every requested level is computed, one frame is stored, columns come from positions 0/1/2.
+ R8 the aggregate steps get the same unit frames in every iteration of the client's loops (restated from C13.R9);
  R7 the stored summary frame is built from this call's estimates only (restated from C12.R7.summary-fresh: a frame continued from an
     earlier summary keeps that call's prediction next to this call's bounds - pred outside [lower, upper] and outside
     [base, base + total] as soon as two summaries with other weights or another base are asked of one run).
@@ -365,3 +366,8 @@ def check(ctx):
     # what an earlier summary call stored keeps that call's agg_pred next to this call's bounds. Same structural fact as C12.R7.
     n7 = ctx.borrow("C12", "C12.R7.", "C08.R7.", "the summary of one call would carry the prediction of another: not within its own bounds, not base + weights")
     ctx.sites("C08.R7", n7, 1, "summary-fresh obligation restated from C12.R7")
+    # R8: "depends only on the contests" - the contest-level table whose margins and errors the summary reads is computed from the same unit
+    # frames whatever other tables the request asked for, in whatever order (restated from C13.R9)
+    n8 = ctx.borrow("C13", "C13.R9.frames", "C08.R8.same-frames", "the contest-level quantities the summary reads would depend on the other aggregates of the request",
+                    key=lambda k: "get_aggregate_" in k)
+    ctx.sites("C08.R8", n8, 6, "frame arguments of the aggregate steps, restated from C13.R9")
